@@ -11,7 +11,7 @@ RULES = {
               'as_polytope/as_function/new/view/to_owned (field-wise), convert_to per PolyRepr arm',
     'C16.R2': 'named constructors: identity, zeros, constant, unit, zero_idx, sum, subtraction, rotation, scaling, uniform_scaling, translation',
 }
-FLOORS = {'C16.R1': 18, 'C16.R2': 12}
+FLOORS = {'C16.R1': 35, 'C16.R2': 12}
 EXPLANATION = ('Each kernel is single-path; its returned value is a polynomial in the operands, and polynomial identities over matrices of all sizes are decidable by '
                'normal-form comparison. Constructor forms (base matrix + point writes) are compared entry-wise with the documented meaning.')
 DOES_NOT_DECIDE = 'from_row_iter/remove_rows iterator plumbing (C15), % semantics beyond element-wise, floating-point rounding'
@@ -63,6 +63,15 @@ def run(ctx):
         obligation(ctx, 'C16.R1', F, q, lambda e, p=p: Aff(e[p].mat, e[p].bias))
     # from_mats keeps its arguments
     obligation(ctx, 'C16.R1', F, 'AffFuncBase::from_mats', lambda e: Aff(e['mat'], e['bias']))
+    # element-wise operators of AffFunc (+, -, *, /, %, unary minus in every ownership form): rule shared with C07.R4
+    from ..core import Ctx
+    from . import c07
+    sub = Ctx(ctx.facts, ctx.tier, ctx.prop)
+    c07.run(sub)
+    for i in sub.insts:
+        if i.rule == 'C07.R4':
+            i.rule = 'C16.R1'
+            ctx.insts.append(i)
     convert_to(ctx, F)
     rows(ctx, F)
     constructors(ctx, F)
